@@ -204,7 +204,7 @@ def judge(case: dict) -> Outcome:
     cache: dict = {}
     for j, name in enumerate(names):
         if name == "Intercept":
-            exp = np.ones(n)
+            exp, scale = np.ones(n), 1.0
         else:
             parts = gen.split_label(name)
             try:
@@ -224,7 +224,7 @@ def judge(case: dict) -> Outcome:
                 out.fail("c02.label_not_in_owner", f"{case['formula']!r}: column {name!r} uses {used}, owner term has {own_labels}")
                 return out
             exp = scale * np.prod([v for v, _ in subs], axis=0)
-        tol = 1e-9 * max(1.0, float(np.nanmax(np.abs(exp))) if n else 1.0)
+        tol = 1e-9 * max(min(1.0, abs(float(scale))) if scale else 1.0, float(np.nanmax(np.abs(exp))) if n else 1.0)
         if not np.allclose(M[:, j], exp, rtol=1e-9, atol=tol, equal_nan=True) and name != "Intercept" and small_int_product(case, subs, scale, M[:, j]):
             out.fail("c02.small_integer_product_wraps", f"{case['formula']!r} out={case['output']} mat={case['mat']}: column {name!r} = {M[:4, j]} is the product taken in the columns' own integer width; the numbers' product is {exp[:4]}")
             continue
